@@ -162,16 +162,70 @@ def expected(desc, fmt):
                 s["comment"] = sg.get("comment") or None
             if "signal" in env["attributes"]:
                 s["attributes"] = {k: attr_expected(defs, k, v) for k, v in sg["attributes"].items()}
+            if env.get("start_values") and not (m and m["role"] == "multiplexer"):
+                s["start_value"] = dstr(sg.get("start_value", 0))
             if env.get("sym_switches") and not (m and m["role"] == "multiplexer"):
                 x = sg.get("sym") or {}
                 s["sym"] = dict(long_name=x.get("long_name"), decimals=None if "decimals" not in x else str(x["decimals"]),
                                 start_value=dstr(x.get("start_value", 0)))
             f["signals"][name] = s
+        probes = decode_probes(fr)
+        if probes:
+            names = {}
+            for sg in fr["signals"]:
+                n = sg["name"]
+                if sg["mux"] and sg["mux"]["role"] == "multiplexer" and not env["mux_named"]:
+                    n = fr["name"] + "_MUX" if fmt == "sym" else "Multiplexor"
+                names[id(sg)] = n
+            f["decode"] = {}
+            for v in probes:
+                act = []
+                for sg in fr["signals"]:
+                    m = sg["mux"]
+                    if m is None or m["role"] == "multiplexer":
+                        act.append(names[id(sg)])
+                    elif (fmt == "dbc" and m.get("ranges") and any(lo <= v <= hi for lo, hi in m["ranges"])) or \
+                            (not (fmt == "dbc" and m.get("ranges")) and m["selector"] == v):
+                        act.append(names[id(sg)])
+                f["decode"][v] = sorted(act)
         out["frames"]["%d_%d" % (fr["id"], int(fr["extended"]))] = f
     return out
 
 
+def decode_probes(fr):
+    """selector values with which a multiplexed frame is decoded: every described selector, range ends, one value nobody uses"""
+    muxer = [s for s in fr["signals"] if s["mux"] and s["mux"]["role"] == "multiplexer"]
+    if not muxer:
+        return []
+    vals = set()
+    for s in fr["signals"]:
+        m = s["mux"]
+        if m and m["role"] == "muxed":
+            vals.add(m["selector"])
+            for lo, hi in (m.get("ranges") or []):
+                vals |= {lo, hi}
+    top = (1 << muxer[0]["width"]) - 1
+    unused = [v for v in range(top + 1) if v not in vals]
+    if unused:
+        vals.add(unused[0])
+    return sorted(v for v in vals if 0 <= v <= top)
+
+
+def payload_with_selector(fr, v):
+    """payload of the frame's length, all zero except the multiplexer's bits holding v (independent of canmatrix's codec)"""
+    muxer = [s for s in fr["signals"] if s["mux"] and s["mux"]["role"] == "multiplexer"][0]
+    bits = netdesc.desc_bits(muxer)
+    if muxer["byte_order"] == "motorola":
+        bits = bits[::-1]          # least significant first
+    data = bytearray(fr["length"])
+    for i, b in enumerate(bits):
+        if (v >> i) & 1:
+            data[b // 8] |= 1 << (b % 8)
+    return bytes(data)
+
+
 READER_OWN_ATTRS = {
+    "dbc": {"frame": {"SystemMessageLongSymbol"}, "signal": {"SystemSignalLongSymbol"}, "ecu": {"SystemNodeLongSymbol"}, "net": set()},
     "sym": {"frame": {"Receivable", "Sendable"}, "signal": {"HexadecimalOutput", "DisplayDecimalPlaces", "LongName"}, "ecu": set(), "net": {"Title"}},
     "arxml": {"frame": {"PduName", "FrameTriggeringName", "GenMsgStartValue", "GenMsgSendType", "GenMsgDelayTime", "GenMsgNrOfRepetitions",
                         "GenMsgStartDelayTime"},
@@ -214,6 +268,7 @@ def observed(db, desc, fmt):
     if env.get("value_tables"):
         out["value_tables"] = {n: {int(k): v for k, v in t.items()} for n, t in db.value_tables.items()}
     out["frames"] = {}
+    dframes = {"%d_%d" % (d["id"], int(d["extended"])): d for d in desc["frames"]}
     for fr in db.frames:
         f = dict(name=fr.name, length=fr.size)
         if env["senders"] != "none":
@@ -250,6 +305,8 @@ def observed(db, desc, fmt):
                 s["comment"] = sg.comment or None
             if "signal" in env["attributes"]:
                 s["attributes"] = {k: attr_observed(defs, k, v) for k, v in sg.attributes.items() if k not in own["signal"]}
+            if env.get("start_values") and not sg.is_multiplexer:
+                s["start_value"] = dstr(sg.initial_value)
             if env.get("sym_switches") and not sg.is_multiplexer:
                 s["sym"] = dict(long_name=sg.attributes.get("LongName"), decimals=sg.attributes.get("DisplayDecimalPlaces"),
                                 start_value=dstr(sg.initial_value))
@@ -257,6 +314,15 @@ def observed(db, desc, fmt):
                 f.setdefault("duplicate_signal_names", []).append(sg.name)
             f["signals"][sg.name] = s
         key = "%d_%d" % (fr.arbitration_id.id, int(bool(fr.arbitration_id.extended)))
+        dfr = dframes.get(key)
+        probes = decode_probes(dfr) if dfr is not None else []
+        if probes:
+            f["decode"] = {}
+            for v in probes:
+                try:
+                    f["decode"][v] = sorted(fr.decode(payload_with_selector(dfr, v)).keys())
+                except Exception as e:      # noqa
+                    f["decode"][v] = "exception %s: %s" % (type(e).__name__, str(e)[:80])
         if key in out["frames"]:
             out.setdefault("duplicate_frames", []).append(key)
         out["frames"][key] = f
@@ -313,7 +379,12 @@ def metamorphic_form(db, fmt=None):
             if k in drop[obj]:
                 del nf["defines"][cat][k]
     nf.pop("frame_order", None)
+    for e in nf["ecus"].values():
+        e["comment"] = e.get("comment") or None
     for f in nf["frames"].values():
+        f["comment"] = f.get("comment") or None        # an explicitly empty comment is no comment
+        for s in f["signals"].values():
+            s["comment"] = s.get("comment") or None
         f.pop("signal_order", None)
         f["receivers"] = sorted(f["receivers"])
         f["transmitters"] = sorted(f["transmitters"])
